@@ -4,5 +4,15 @@ CLAIMED = {
         "Bounded: lengths 0..40, raw-text lemma |t|<=3 (quick) / 4 (thorough); longer raw texts rely on re.sub/str.upper acting per character.",
         "3 C01",
     ),
+    "C04": (
+        "For every length 0..14 and both compliance modes the real BIC constructor is executed symbolically on a compact string of arbitrary code points; every path's outcome is proved to agree with an independent ISO 9362 reference (country set read from the installed pycountry). Raw-text normalisation proved for texts up to the lemma bound.",
+        "Bounded: lengths 0..14 (longer texts take the same length-rejection branch), raw-text lemma |t|<=3/4.",
+        "3 C04",
+    ),
+    "C05": (
+        "On the C01/C04 input spaces the validating constructor, validate() and is_valid are executed in one path; per path the solver shows that only library exceptions escape, is_valid never raises, the three entry points agree, and the class of each raised error implies the named defect under the reference.",
+        "Bounded as C01/C04 (quick: own length for one country per signature, all lengths for 8 seeded countries + unknown prefix). InvalidBBANChecksum soundness is part of C06/C07.",
+        "3 C05",
+    ),
 }
 NOT_APPLICABLE = {}
